@@ -187,16 +187,17 @@ Qed.
 (** (* FULL: for all samples of size >= 2 the Kuiper p-value is in [0,1] and not NaN. *)
     FALSE of the code (finding F20): the binary64 run of the transliterated
     _false_positive_probability gives NaN on ([1,2,3],[1.5,2.5,3.5]) (negative base to the
-    power N-1 = 0.5) and 1.5 on ([1,3,5,7],[2,4,6,8]). *)
+    power N-1 = 0.5), 1.5 on ([1,3,5,7],[2,4,6,8]) and -0.0047 on ([1..5],[6..13]) (D = 1). *)
 Theorem C12_kuiper_pvalue_refuted : exists X Y : list float,
   2 <= zlen X /\ 2 <= zlen Y /\ p_valid (A:=FloatA) (kuiper_p (A:=FloatA) X Y) = false.
 Proof. exact kuiper_pvalue_refuted. Qed.
 Print Assumptions C12_kuiper_pvalue_refuted.
 
 Theorem C12_kuiper_pvalue_witnesses :
-  PrimFloat.is_nan (kuiper_p (A:=FloatA) [1; 2; 3] [0x1.8p+0; 0x1.4p+1; 0x1.cp+1])%float = true /\
-  PrimFloat.ltb 1 (kuiper_p (A:=FloatA) [1; 3; 5; 7] [2; 4; 6; 8])%float = true.
-Proof. split; [exact (proj1 kuiper_p_nan) | exact (proj1 kuiper_p_above_one)]. Qed.
+  (PrimFloat.is_nan (kuiper_p (A:=FloatA) [1; 2; 3] [0x1.8p+0; 0x1.4p+1; 0x1.cp+1])%float = true /\
+  PrimFloat.ltb 1 (kuiper_p (A:=FloatA) [1; 3; 5; 7] [2; 4; 6; 8])%float = true /\
+  PrimFloat.ltb (kuiper_p (A:=FloatA) [1; 2; 3; 4; 5] [6; 7; 8; 9; 10; 11; 12; 13]) 0 = true)%float.
+Proof. split; [exact (proj1 kuiper_p_nan) | split; [exact (proj1 kuiper_p_above_one) | exact (proj1 kuiper_p_below_zero)]]. Qed.
 Print Assumptions C12_kuiper_pvalue_witnesses.
 
 (** The statistic KuiperTest reports is ks_2samp's D = max(D+, D-); Kuiper's statistic is
